@@ -10,7 +10,7 @@ from ..sandbox import fsdec, subtree
 ID = "C09"
 LEVEL = "exploration"
 RULE = ("Model-based (stateful) testing: Hypothesis generates a history of 3-25 operations over a "
-        "2-3 volume world - put(path slot, spelling), recreate(slot), restore(directory, index, "
+        "2-3 volume world - put(path slot, spelling), recreate(slot), mk_top(volume: a sticky $topdir/.Trash appears mid-history), restore(directory, index, "
         "sort), rm(pattern), empty(), empty(DAYS) with TRASH_DATE, advance_clock - interpreted "
         "against the real commands and against an abstract BAG of (original path, date, payload "
         "digest): put adds one element; restore removes the element printed at the chosen index "
@@ -48,6 +48,7 @@ OP = st.one_of(
     st.tuples(st.just("empty"), st.sampled_from([None, None, 0, 1, 2, 30])),
     st.tuples(st.just("clock"), st.sampled_from([86400, 86400 * 2, 86400 * 31, 3600])),
     st.tuples(st.just("recreate"), st.integers(0, len(SLOTS) - 1), st.sampled_from(["file", "tree"])),
+    st.tuples(st.just("mk_top"), st.sampled_from(["/vol", "/vol2", "/"]), st.sampled_from([0o1777, 0o1777, 0o777])),
 )
 
 
@@ -183,6 +184,17 @@ def run_case(case):
                 break
         elif k == "recreate":
             create(op[1], op[2])
+        elif k == "mk_top":
+            # the administrator creates (or fixes / breaks) $topdir/.Trash while entries already
+            # live in $topdir/.Trash-$uid: from now on both directories of the volume are in use
+            import os
+            tp = sandbox.wp(op[1].rstrip("/") + "/.Trash")
+            if not os.path.lexists(tp):
+                os.mkdir(tp)
+            if os.path.isdir(tp) and not os.path.islink(tp):
+                has_uid_dir = os.path.isdir(tp + "/%d" % uid)
+                if not (has_uid_dir and op[2] == 0o777):   # never hide already trashed entries
+                    os.chmod(tp, op[2])
         elif k == "clock":
             clock[0] += op[1]
         elif k == "rm":
